@@ -49,6 +49,13 @@ Definition DIAG_every_revision_total := Eval vm_compute in
       (nodup string_dec (latest :: rev_keys t))) (latest :: skeys (t_maxpl t))) band_configs.
 Print DIAG_every_revision_total.
 
+(* (deprecated name, repeater, dwell): GetConfig does not return the configuration of the common name *)
+Definition DIAG_deprecated_name := Eval vm_compute in
+  map id_of (filter (fun ac => negb (alias_cfg_check ac)) band_alias_configs)
+  ++ flat_map (fun p => flat_map (fun rep => flat_map (fun dw =>
+       if alias_cover_cell (fst p) rep dw then [] else [(fst p, rep, dw)]) [false; true]) [false; true]) deprecated_names.
+Print DIAG_deprecated_name.
+
 (* (name, dwell, version, revision, DR) of the repeater configuration *)
 Definition DIAG_repeater_le_non_repeater := Eval vm_compute in
   flat_map (fun cr => flat_map (fun cn =>
